@@ -7,10 +7,12 @@ pub mod c01;
 pub mod c02;
 pub mod c03;
 pub mod c04;
+pub mod c05;
 pub mod c09;
 pub mod c10;
 pub mod c11;
 pub mod c12;
+pub mod c13;
 pub mod c16;
 pub mod c17;
 pub mod c10_conn;
@@ -28,11 +30,13 @@ pub const REGISTRY: &[Entry] = &[
     Entry { id: "C02", run: c02::run, replay: c02::replay },
     Entry { id: "C03", run: c03::run, replay: c03::replay },
     Entry { id: "C04", run: c04::run, replay: c04::replay },
+    Entry { id: "C05", run: c05::run, replay: c05::replay },
     Entry { id: "C09", run: c09::run, replay: c09::replay },
     Entry { id: "C10", run: c10::run, replay: c10::replay },
     Entry { id: "SMOKE", run: smoke::run, replay: smoke::replay },
     Entry { id: "C11", run: c11::run, replay: c11::replay },
     Entry { id: "C12", run: c12::run, replay: c12::replay },
+    Entry { id: "C13", run: c13::run, replay: c13::replay },
     Entry { id: "C16", run: c16::run, replay: c16::replay },
     Entry { id: "C17", run: c17::run, replay: c17::replay },
     Entry { id: "C18", run: c18::run, replay: c18::replay },
